@@ -363,8 +363,8 @@ def replay(ctx, case):
 
 
 SUBS = [
-    Sub("pairs", run_pairs, replay, quick=1200, thorough=30000),
-    Sub("many_shards", run_many_shards, replay, quick=84, thorough=2000,
+    Sub("pairs", run_pairs, replay, quick=1200, thorough=120000),
+    Sub("many_shards", run_many_shards, replay, quick=84, thorough=8000,
         min_per_shard=6),
     Sub("perm_exhaustive", run_exhaustive, replay, quick=1, thorough=1,
         shards=14, sweep=True),
